@@ -160,6 +160,12 @@ func (n *constructorNode) Call(c containerStore) (err error) {
 		}
 	}
 
+	// Building the arguments may already have run this constructor: a
+	// decorator of one of its dependencies can depend on its results.
+	if n.called {
+		return nil
+	}
+
 	if n.callback != nil {
 		start := c.clock().Now()
 		// Wrap in separate func to include PanicErrors
